@@ -740,6 +740,38 @@ def _gen_crystal_small(rng, it):
             return case
 
 
+def gen_narrowbin(rng, it):
+    """Pairs that only a bin width of exactly the cutoff keeps in adjacent bins (hypothesis of `adjacent_bins`): were
+    the bin width w' a hair below the cutoff c (single-precision rounding of c, or c (1 - 1e-9 .. 1e-6)), an atom u
+    inside (e' - (s - w'), e') below an edge e' = lo + m w' of that hypothetical grid and an atom v = u + s along the axis
+    with w' < s < c would sit two bins apart and never be compared.  For the real grid nothing is special about them:
+    s < c, the pair must be listed.  Orthogonal cell, pair in the interior (no image can rescue it), 2-6 atoms."""
+    np = _np()
+    L = [rng.uniform(3.0, 8.0) for _ in range(3)]
+    origin = [rng.uniform(-3, 3) for _ in range(3)]
+    while True:
+        c = rng.uniform(0.12, 0.3) * min(L)
+        w = float(np.float32(c)) if it % 2 == 0 else c * (1.0 - rng.choice([1e-9, 1e-8, 1e-7, 1e-6]))
+        if w < c:
+            break
+    ax = rng.randrange(3)
+    lo = origin[ax] - 1.01 * c
+    edges = np.arange(lo, origin[ax] + L[ax] + 1.01 * c + w, w)
+    inside = [e for e in edges.tolist() if origin[ax] + 0.05 * c < e and e + c < origin[ax] + L[ax]]
+    e = rng.choice(inside)
+    s = w + rng.uniform(0.1, 0.9) * (c - w)
+    u = [origin[k] + rng.uniform(0.1, 0.9) * L[k] for k in range(3)]
+    u[ax] = e - rng.uniform(0.05, 0.95) * (s - w)
+    v = list(u)
+    v[ax] = u[ax] + s
+    pts = [u, v]
+    if rng.random() < 0.5:
+        pts.reverse()
+    for _ in range(rng.choice([0, 0, 1, 2, 4])):
+        pts.insert(rng.randint(0, len(pts)), [origin[k] + rng.random() * L[k] for k in range(3)])
+    return _case(np.diag(L), origin, pts, ALL_PBC[it % 8], c, 'float', rng.randint(1, 4), rng.randint(1, 3))
+
+
 def load_corpus():
     out = []
     if CORPUS.is_dir():
@@ -1901,7 +1933,7 @@ def _correspond(ctx):
         plan = [(gen_general, ctx.n(120, 4000)), (gen_grid, ctx.n(120, 3000)), (gen_edges, ctx.n(50, 1000)),
                 (gen_hunt, ctx.n(150, 4000)), (gen_outside, ctx.n(80, 2000)), (gen_shear, ctx.n(120, 3000)),
                 (gen_dense, ctx.n(15, 200)), (gen_fine, ctx.n(120, 3000)), (gen_nearcut, ctx.n(100, 3000)),
-                (_gen_crystal_small, ctx.n(12, 150))]
+                (_gen_crystal_small, ctx.n(12, 150)), (gen_narrowbin, ctx.n(40, 1000))]
         import time
         ph = ctx.extra.setdefault('phase_seconds', {})
         for gen, count in plan:
@@ -2550,7 +2582,7 @@ def _search(ctx, broken):
             ('hunt', gen_hunt, ctx.n(4000, 100000) * mult), ('general', gen_general, ctx.n(250, 8000) * mult),
             ('grid', gen_grid, ctx.n(250, 8000) * mult), ('edges', gen_edges, ctx.n(100, 3000) * mult),
             ('fine', gen_fine, ctx.n(500, 15000) * mult), ('nearcut', gen_nearcut, ctx.n(400, 12000) * mult),
-            ('crystal', gen_crystal, ctx.n(60, 1500) * mult)]
+            ('crystal', gen_crystal, ctx.n(60, 1500) * mult), ('narrowbin', gen_narrowbin, ctx.n(300, 6000) * mult)]
     with tempfile.TemporaryDirectory(prefix='c03_') as tmpdir:
         import time
         ph = ctx.extra.setdefault('phase_seconds', {})
